@@ -149,6 +149,7 @@ var narrowRows = map[string]string{
 	"nothing-qualifies":     "nothing qualifying: an error and no candidates",
 	"permutation-invariant": "whenever the preference rules determine a unique winner, every ordering of the candidate list yields it",
 	"no-panic":              "the narrowing never panics",
+	"input-untouched":       "the candidate list handed in is left as it was (it may be shared with other points of the same type)",
 }
 
 func narrowTable(c *core.Ctx, fn *ssa.Function, maxLen int) (rs rows, runs int, undecided string) {
@@ -321,6 +322,20 @@ func narrowTable(c *core.Ctx, fn *ssa.Function, maxLen int) (rs rows, runs int, 
 						if out.Panic != nil {
 							rs.fail("no-panic", w)
 							return
+						}
+						rs.hit("input-untouched")
+						if len(in.Elems) != len(cands) {
+							rs.fail("input-untouched", w)
+						} else {
+							for i, m := range cands {
+								if m == nil {
+									if _, isNil := in.Elems[i].(absint.Nil); !isNil {
+										rs.fail("input-untouched", w+" (the list handed in now reads "+absint.Show(in)+")")
+									}
+								} else if in.Elems[i] != absint.Value(m) {
+									rs.fail("input-untouched", w+" (the list handed in now reads "+absint.Show(in)+")")
+								}
+							}
 						}
 						isErr := len(out.Ret) == 2 && isErrTok(out.Ret[1])
 						var res []*absint.Tok
